@@ -30,7 +30,27 @@ def encode : List Char → Bytes
 def Valid (l : Bytes) : Prop := ∃ cs : List Char, l = encode cs
 
 /-- continuation byte `10xxxxxx` -/
-def isCont (b : UInt8) : Bool := 0x80 ≤ b.toNat && b.toNat < 0xC0
+abbrev IsCont (b : UInt8) : Prop := 0x80 ≤ b.toNat ∧ b.toNat < 0xC0
+
+/-- two-byte sequence `110xxxxx 10xxxxxx` (first byte ≥ 0xC2: no overlong form) -/
+def decode2 (n0 : Nat) : Bytes → Option (Char × Bytes)
+  | b1 :: r1 =>
+    if IsCont b1 then some (Char.ofNat ((n0 - 0xC0) * 64 + (b1.toNat - 0x80)), r1) else none
+  | _ => none
+
+/-- three-byte sequence `1110xxxx 10xxxxxx 10xxxxxx`: ≥ U+0800 (no overlong form), no surrogate -/
+def decode3 (n0 : Nat) : Bytes → Option (Char × Bytes)
+  | b1 :: b2 :: r2 =>
+    let v := (n0 - 0xE0) * 4096 + (b1.toNat - 0x80) * 64 + (b2.toNat - 0x80)
+    if IsCont b1 ∧ IsCont b2 ∧ 0x800 ≤ v ∧ ¬ (0xD800 ≤ v ∧ v ≤ 0xDFFF) then some (Char.ofNat v, r2) else none
+  | _ => none
+
+/-- four-byte sequence `11110xxx 10xxxxxx 10xxxxxx 10xxxxxx`: U+10000 ..= U+10FFFF -/
+def decode4 (n0 : Nat) : Bytes → Option (Char × Bytes)
+  | b1 :: b2 :: b3 :: r3 =>
+    let v := (n0 - 0xF0) * 262144 + (b1.toNat - 0x80) * 4096 + (b2.toNat - 0x80) * 64 + (b3.toNat - 0x80)
+    if IsCont b1 ∧ IsCont b2 ∧ IsCont b3 ∧ 0x10000 ≤ v ∧ v ≤ 0x10FFFF then some (Char.ofNat v, r3) else none
+  | _ => none
 
 /-- `core::str::validations::next_code_point` + the checks of `run_utf8_validation`: decodes one
     scalar value from the front; `none` when the input does not start with a well-formed sequence -/
@@ -40,25 +60,9 @@ def decodeFirst : Bytes → Option (Char × Bytes)
     let n0 := b0.toNat
     if n0 < 0x80 then some (Char.ofNat n0, r)
     else if n0 < 0xC2 then none
-    else if n0 < 0xE0 then
-      match r with
-      | b1 :: r1 =>
-        if isCont b1 then some (Char.ofNat ((n0 - 0xC0) * 64 + (b1.toNat - 0x80)), r1) else none
-      | _ => none
-    else if n0 < 0xF0 then
-      match r with
-      | b1 :: b2 :: r2 =>
-        let v := (n0 - 0xE0) * 4096 + (b1.toNat - 0x80) * 64 + (b2.toNat - 0x80)
-        if isCont b1 && isCont b2 && decide (0x800 ≤ v) && !(decide (0xD800 ≤ v) && decide (v ≤ 0xDFFF))
-        then some (Char.ofNat v, r2) else none
-      | _ => none
-    else if n0 < 0xF5 then
-      match r with
-      | b1 :: b2 :: b3 :: r3 =>
-        let v := (n0 - 0xF0) * 262144 + (b1.toNat - 0x80) * 4096 + (b2.toNat - 0x80) * 64 + (b3.toNat - 0x80)
-        if isCont b1 && isCont b2 && isCont b3 && decide (0x10000 ≤ v) && decide (v ≤ 0x10FFFF)
-        then some (Char.ofNat v, r3) else none
-      | _ => none
+    else if n0 < 0xE0 then decode2 n0 r
+    else if n0 < 0xF0 then decode3 n0 r
+    else if n0 < 0xF5 then decode4 n0 r
     else none
 
 /-- decode at most `fuel` characters; `none` = malformed input (or fuel exhausted) -/
